@@ -1,6 +1,7 @@
 from api import H, prop, mut, claim, SHARED
-Q = [h for h in SHARED["sched_quick"] if h.entry in ("h_next",)]
-T = [h for h in SHARED["sched_thorough"] if h.entry in ("h_next",)]
+# the return value relies on the invariant "timer queue sorted by cyclic due time", which fibre_timeout / duetime_cmp establish: their contracts are part of this property
+Q = [h for h in SHARED["sched_quick"] if h.entry in ("h_next", "h_timeout", "h_cmp")]
+T = [h for h in SHARED["sched_thorough"] if h.entry in ("h_next", "h_timeout", "h_cmp")]
 IQ = [h for h in SHARED["irq"](3, 2, 2, ("quick",), 1500) if h.entry == "h_irq_next"]
 IT = [h for h in SHARED["irq"](4, 3, 3, ("thorough",), 7200) if h.entry == "h_irq_next"]
 prop("C03", "model_checking",
